@@ -151,6 +151,48 @@ func TestC18Exhaustive(t *testing.T) {
 			"sequences_per_input": len(seqs), "program_depth_hnri": pt.depth4, "program_depth_hnr": pt.depth3,
 			"programs": len(progs), "cases_this_shard": n})
 	}
+	// part 3: value-type (non-pointer) iterator implementations. Every pair of source kinds in which at least one input
+	// is a struct value (same type on both sides included), inputs over {1,2} of length 0..2, programs over {h,n,r} to
+	// depth 4 (thorough 5); a pair with a source without Reset again only with programs whose first r is the last call.
+	{
+		var pairs [][2]string
+		for _, ka := range Kinds {
+			for _, kb := range Kinds {
+				if IsValueKind(ka) || IsValueKind(kb) {
+					pairs = append(pairs, [2]string{ka, kb})
+				}
+			}
+		}
+		seqs := allSeqs(2, 2)
+		depth := vstat.Pick(4, 5)
+		n := int64(0)
+		for _, prog := range allPrograms(3, depth) {
+			firstR := strings.IndexByte(prog, 'r')
+			for _, a := range seqs {
+				for _, b := range seqs {
+					combo++
+					if combo%shards != shard {
+						continue
+					}
+					for _, sel := range Selectors {
+						for _, k := range pairs {
+							if !(CanReset(k[0]) && CanReset(k[1])) && !(firstR >= 0 && firstR == len(prog)-1) {
+								continue
+							}
+							c := Case{A: a, B: b, KA: k[0], KB: k[1], Sel: sel, Prog: prog}
+							info, v := Run(c)
+							st.Report(t, "TestC18Exhaustive", c, v)
+							record(c, info)
+							n++
+						}
+					}
+				}
+			}
+		}
+		total += n
+		desc = append(desc, map[string]any{"part": "value-type iterator kinds", "alphabet": 2, "max_input_len": 2, "kind_pairs": len(pairs),
+			"sequences_per_input": len(seqs), "program_depth_hnr": depth, "cases_this_shard": n})
+	}
 	st.SetExhaustive("mixer_pairs_x_selectors_x_kinds_x_programs", map[string]any{
 		"parts": desc, "selectors": len(Selectors), "source_kinds_per_input": len(Kinds), "cases_this_shard": total, "shards": shards})
 }
@@ -189,9 +231,12 @@ func genSeq(t *rapid.T, label string, sel string) []int {
 func genCase(t *rapid.T) Case {
 	c := Case{}
 	c.Sel = rapid.SampledFrom(Selectors).Draw(t, "sel")
-	kinds := rapid.SampledFrom([]string{KSlice, KSlice, KSlice, KDisparity, KDisparity, KNoReset})
+	kinds := rapid.SampledFrom([]string{KSlice, KSlice, KSlice, KDisparity, KDisparity, KNoReset, KValFunc, KValFuncNoReset, KValSlice, KValCmp})
 	c.KA = kinds.Draw(t, "ka")
 	c.KB = kinds.Draw(t, "kb")
+	if rapid.IntRange(0, 9).Draw(t, "sameKind") == 0 {
+		c.KB = c.KA // both inputs of one and the same implementation type
+	}
 	c.A = genSeq(t, "a", c.Sel)
 	c.NilA = rapid.Bool().Draw(t, "nilA")
 	c.NilB = rapid.Bool().Draw(t, "nilB")
@@ -326,9 +371,13 @@ func genRound(t *rapid.T) Round {
 	n := rapid.SampledFrom([]int{2, 2, 3, 3, 3, 4, 4, 5, 6, 8}).Draw(t, "leaves")
 	s := genShape(t, 0, n)
 	r.Shape = s[1 : len(s)-1]
-	kinds := rapid.SampledFrom([]string{KSlice, KSlice, KSlice, KSlice, KSlice, KSlice, KDisparity, KDisparity, KNoReset})
+	kinds := rapid.SampledFrom([]string{KSlice, KSlice, KSlice, KSlice, KSlice, KSlice, KDisparity, KDisparity, KNoReset, KValFunc, KValSlice, KValCmp, KValFuncNoReset})
+	sameKind := rapid.IntRange(0, 9).Draw(t, "sameKind") == 0 // every leaf of one and the same implementation type
 	for i := 0; i < n; i++ {
 		r.Kinds = append(r.Kinds, kinds.Draw(t, "kind"))
+		if sameKind {
+			r.Kinds[i] = r.Kinds[0]
+		}
 		r.Leaves = append(r.Leaves, genSeq(t, "leaf", r.Sel))
 	}
 	r.NilEmpty = rapid.Bool().Draw(t, "nilEmpty")
